@@ -237,10 +237,48 @@ def references():
     return dict(pmap(child_reference, list(itertools.product(range(NMODELS), range(NCFGS)))))
 
 
+PREFIXES = [None, 'Dzn', 'Vendor.Dzn', 'Dzn.Vendor', 'dzn', 'Dzn.Dzn', 'A', 'A.B.C.D', 'Dzn_', '_Dzn', 'My.Project',
+            'Other.Project', 'DznX', 'X.Dzn.Y', 'Support', 'Vendor.dzn']
+
+
+def judge_prefix(case):
+    """A build with namespace prefix P carries exactly the support files create_header(P) gives stand-alone -
+    also after an earlier build with another prefix through the same Builder."""
+    from dznpy.adv_shell import Builder  # pylint: disable=import-outside-toplevel
+    from dznpy.scoping import ns_ids_t  # pylint: disable=import-outside-toplevel
+    out = []
+    builder = Builder()
+    for prefix in case['prefixes']:
+        model = models()[case['model']]
+        d = dict(cfg_desc(case['model'], 0), prefix=prefix or '')
+        try:
+            cfg = B.mk_configuration(model, d)
+            res = builder.build(cfg)
+        except Exception as exc:  # pylint: disable=broad-except
+            out.append((f'prefix-breaks-build:{type(exc).__name__}', f'prefix={prefix!r}: {exc!r}'))
+            continue
+        alone = standalone_support(ns_ids_t(prefix) if prefix else None)
+        for gen, ref in zip(res.files[2:], alone):
+            if (gen.filename, gen.contents, gen.namespace) != (ref.filename, ref.contents, ref.namespace):
+                out.append((f'support-file-differs-from-standalone:{ref.filename.split("Dzn_")[-1]}',
+                            f'prefix={prefix!r} (sequence {case["prefixes"]}): build has {gen.filename}, stand-alone '
+                            f'{ref.filename}'))
+                break
+        names = {f.filename for f in res.files}
+        for f in res.files[:2]:
+            import re as _re  # pylint: disable=import-outside-toplevel
+            for inc in _re.findall(r'#include "([^"]+)"', f.contents):
+                if 'Dzn_' in inc and inc not in names:
+                    out.append(('shell-includes-other-support-file', f'prefix={prefix!r}: {f.filename} includes {inc}'))
+    return out
+
+
 OPS = [[mi, ci, which] for mi in range(NMODELS) for ci in range(NCFGS) for which in ('shared', 'fresh')]
 
 
 def judge(case):
+    if 'prefixes' in case:
+        return judge_prefix(case)
     ref = case.get('reference') or references()
     res, _ = run_history(case['history'], ref)
     seen, out = set(), []
@@ -254,7 +292,19 @@ def judge(case):
 def work(job):
     kind, first, depth, reference = job
     part = Partial()
-    if kind == 'sweep':
+    if kind == 'prefixes':
+        for mi in (0, 1):
+            for seq in [[p] for p in PREFIXES] + [[p, q] for p in PREFIXES for q in PREFIXES if p != q]:
+                case = {'prefixes': seq, 'model': mi}
+                res = judge_prefix(case)
+                part.evaluations += 1
+                part.transitions += len(seq)
+                part.nontrivial += 1
+                part.outcome('prefixes')
+                for key, what in res:
+                    part.violation(key, what, case)
+        part.states = part.evaluations
+    elif kind == 'sweep':
         for tail in itertools.product(OPS, repeat=depth - 1):
             hist = [first] + [list(o) for o in tail]
             _one(hist, reference, part)
@@ -306,6 +356,7 @@ def explore(ctx):
     jobs = []
     for d in range(1, depth + 1):
         jobs += [('sweep', list(op), d, reference) for op in OPS]
+    jobs.append(('prefixes', None, 0, None))
     for part in pmap(work, jobs):
         ctx.merge(part)
     if ctx.nviol == 0:
@@ -317,7 +368,8 @@ def explore(ctx):
     ctx.rule = (f'all histories of 1..{depth} build operations over 32 operations (4 models x 4 configurations x '
                 'shared/fresh Builder) on shared input objects, replayed from fresh objects (un-pruned); plus BFS '
                 f'pruned on the canonical state to depth {6 if ctx.thorough else 4}; every build compared with a '
-                'fresh-process reference; non-trivial = history of >= 2 builds')
+                'fresh-process reference; non-trivial = history of >= 2 builds; plus every sequence of 1..2 builds over 16 '
+                'support-file namespace prefixes (2 models) compared with stand-alone generation')
     ctx.bounds = {'unpruned_depth': depth, 'pruned_depth': 6 if ctx.thorough else 4, 'operations': len(OPS)}
     ctx.assumptions += ['pruning: the canonical state contains the deep snapshot of every shared input, of the '
                         "shared Builder's attributes and of every module/class-level attribute and function default "
